@@ -306,7 +306,7 @@ def from_utf8_unchecked(m, st, inst, args, t):
         except UnicodeDecodeError:
             ok = False
     m.oblige(st, "from_utf8_unchecked-ascii", ok,
-             "argument may contain %s" % (mask_str(c & ~ASCII) if c is not None else "bytes of an unsummarised region"))
+             "argument may contain %s" % (mask_str(c & ~ASCII) if c is not None else "bytes of an unsummarised region"), fatal=False)
     if m.hooks is not None:
         m.hooks.on_str(m, st, s, True)
     return s
@@ -488,6 +488,37 @@ def closure_predicate(m, st, clo_val, clo_tid, elem_mode):
     cty = m.ty(clo_tid)
     # find the closure's instance: FnMut::call_mut resolved at the call site is in inst args
     raise NotImplementedError
+
+
+@prim("<std::slice::Iter<'a, T> as std::iter::Iterator>::all", "<std::slice::Iter<'a, T> as std::iter::Iterator>::any")
+def iter_all_any(m, st, inst, args, t):
+    from .explore import closure_table
+    loc, it = read_arg_place(m, st, args[0])
+    if it[0] != "prim" or it[1] != "iter":
+        return NotImplemented
+    if not (it[3][0] == "int" and it[3][1] == 0):
+        raise Unanalysable("all/any on partially consumed iterator")
+    s = it[2]
+    P = closure_table(m, st, inst, args[1], None)
+    is_all = inst["npath"].endswith("::all")
+    c = summ_content(s[3])
+    if c is None:
+        raise Unanalysable("all/any over an unsummarised region")
+    if is_all:
+        if (c & ~P & FULL) == 0:
+            return TRUE
+    else:
+        if (c & P) == 0:
+            return FALSE
+    name = "region_pred:%d" % inst["id"]
+    if name in st.env:
+        return mk_bool(st.env[name])
+
+    def setv(val):
+        def f(s_):
+            s_.env[name] = val
+        return f
+    raise Fork([("pred-true", setv(True)), ("pred-false", setv(False))], "predicate over a summarised region")
 
 
 @prim("<std::slice::Iter<'a, T> as std::iter::Iterator>::rposition", "<std::slice::Iter<'a, T> as std::iter::Iterator>::position")
